@@ -9,7 +9,7 @@ use oal_compiler::definition::{Definition, External};
 use oal_compiler::tree::{Core, NRef, Tree};
 use oal_model::grammar::AbstractSyntaxNode;
 use oal_model::locator::Locator;
-use oal_syntax::parser::{Declaration, Gram, Identifier, Qualifier, Variable};
+use oal_syntax::parser::{Binding, Declaration, Gram, Identifier, Qualifier, Variable};
 use std::collections::hash_map::Entry;
 use std::collections::HashMap;
 use url::Url;
@@ -258,8 +258,16 @@ fn rename_variable(
     };
 
     // Rename the variable declaration.
-    let decl = Declaration::cast(external.node(folder.modules().unwrap())).unwrap();
-    let decl_location = node_location(workspace, decl.identifier().node())?;
+    let node = external.node(folder.modules().unwrap());
+    let ident = if let Some(decl) = Declaration::cast(node) {
+        decl.identifier().node()
+    } else if let Some(binding) = Binding::cast(node) {
+        // Function parameters and recursion variables are defined by a binding.
+        binding.node().first()
+    } else {
+        return Ok(());
+    };
+    let decl_location = node_location(workspace, ident)?;
     let decl_edit = TextEdit::new(decl_location.range, new_name.into());
     changes.insert(decl_location.uri, vec![decl_edit]);
 
